@@ -87,6 +87,20 @@ def make_config(rng, **ov):
             {"component": "compB", "source": "sC", "repairable": True, "persistent": rng.random() < 0.5,
              "active": rng.randint(1, 4), "inactive": rng.randint(1, 4)},
         ]
+        if ov.get("extra_sources"):
+            # opt-in (C02-C04): a non-persistent NON-repairable source and a second repairable source on
+            # compA (next to sA).  Drawn from a derived generator so that every other field of the
+            # configuration is the one the main stream would have produced without the option.
+            import random as _r
+
+            xr = _r.Random(cfg["weather_seed"] * 7919 + 17)
+            cfg["sources"] += [
+                {"component": "compA", "source": "sD", "repairable": False, "persistent": False,
+                 "active": xr.randint(1, 3), "inactive": xr.randint(1, 3)},
+                {"component": "compA", "source": "sE", "repairable": True, "persistent": True, "active": 1, "inactive": 0},
+            ]
+            if cfg["nonrep"]["epr"] == 0.0:
+                cfg["nonrep"]["epr"] = 0.00390625
     # methods and programs
     mdl = rng.choice([0.125, 0.5, 1.0])
     methods = {
